@@ -220,6 +220,7 @@ func runProp(prop string) (code int) {
 	}
 
 	wall := time.Since(start).Seconds()
+	loadNotDecided(verifDir())
 	if *flagEvidence != "" {
 		if err := writeEvidence(*flagEvidence, prop, rep, rules, audit, viol, wall); err != nil {
 			fmt.Fprintf(os.Stderr, "ctylint: writing evidence: %v\n", err)
